@@ -31,6 +31,27 @@ def validate(ctx, module, cfg, traces, *, name=None, chunk=400, timeout=3600, de
     return res
 
 
+def validate2(ctx, module, cfg_strict, cfg_lenient, traces, **kw):
+    """Strict validation against the full model; rejected traces are re-validated with the lenient configuration, which
+    keeps only the clauses that restate the property. Returns per trace (strict_ok, lenient_ok, reached_strict, reached_lenient, n)."""
+    strict = validate(ctx, module, cfg_strict, traces, **kw)
+    bad = [i for i, r in enumerate(strict) if not r[0]]
+    len_res = {}
+    if bad:
+        kw2 = dict(kw)
+        kw2["name"] = (kw.get("name") or "trace") + "_lenient"
+        res = validate(ctx, module, cfg_lenient, [traces[i] for i in bad], **kw2)
+        len_res = dict(zip(bad, res))
+    out = []
+    for i, (ok, reached, n) in enumerate(strict):
+        if ok:
+            out.append((True, True, reached, reached, n))
+        else:
+            lo, lr, _ = len_res[i]
+            out.append((False, lo, reached, lr, n))
+    return out
+
+
 def describe_reject(trace, reached):
     ev = trace["events"]
     i = reached - 1  # 0-based index of the first event that could not be taken
